@@ -3,8 +3,10 @@ CONSTANT MaxN = 3
 CONSTANT T = 2
 CONSTANT Sizes = {16, 48}
 CONSTANT Aligns = {16, 32}
-CONSTANT MaxAddr = 128
+CONSTANT Eqs = {0}
+CONSTANT MaxAddr = 96
 CONSTANT AddrStep = 16
+PROPERTY SpecR
 INVARIANT TypeOK
 INVARIANT InvNoOverlapLive
 INVARIANT InvAligned
